@@ -178,21 +178,35 @@ def chain_walk(run, F, PV, C):
                 return ("E", op == "<")
         return None
 
+    # the verdict dict: the name the method returns (bound once, to an empty dict, outside the target loop)
+    rets = [n for n in A.own_nodes(fn) if isinstance(n, ast.Return)]
+    run.require(len(rets) == 1 and isinstance(rets[0].value, ast.Name), "validate_and_get_values: does not end in `return <verdict dict>` (idiom not understood)")
+    RES = rets[0].value.id
+
     def stores(lf):
-        return [(st, v) for k, st, v in lf.effects if k == "assign" and any(isinstance(t, ast.Subscript) and is_name(t.value, "result") for t in st.targets)]
-    for lf in Walker(A, fn, C, valid_atom).walk(vh, stops={vh, va}):
-        kind = "next" if lf.kind == "stop" and lf.node is vh else ("leave" if lf.kind == "stop" and lf.node is va else f"{lf.kind} at line {lf.node.lineno}")
+        out = []
+        for k, st, v in lf.effects:
+            if k == "assign" and any(isinstance(t, ast.Subscript) and is_name(t.value, RES) for t in st.targets):
+                # a verdict held in a temporary is what the temporary stands for on this path
+                if isinstance(v, ast.Name) and v.id in lf.bind:
+                    v = lf.bind[v.id]
+                out.append((st, v))
+        return out
+    # one iteration of the validation loop, followed to where it ends: back at the loop head (next) or at the target loop's head (the
+    # target is finished: break, or the return of a helper the loop was moved into)
+    for lf in Walker(A, fn, C, valid_atom).walk(vh, stops={vh, fh[0]}):
+        kind = "next" if lf.kind == "stop" and lf.node is vh else ("leave" if lf.kind == "stop" and lf.node is fh[0] else f"{lf.kind} at line {lf.node.lineno}")
         sts = stores(lf)
         for v in completions({k: b for k, b in lf.pc.items() if k in ("V", "E")}, ["V", "E"]):
             n_cases += 1
             desc = f"V={'T' if v['V'] else 'F'}, E={'T' if v['E'] else 'F'}"
             if not v["V"]:
-                ok = kind == "leave" and len(sts) == 1 and norm(sts[0][0].targets[0]) == f"result[{TGT}]" and norm(sts[0][1]) == f"(False, {X}.name)"
+                ok = kind == "leave" and len(sts) == 1 and norm(sts[0][0].targets[0]) == f"{RES}[{TGT}]" and norm(sts[0][1]) == f"(False, {X}.name)"
                 run.check("R1", ok, "[not V] -> (False, failing element's name), stop", key="validate_and_get_values|invalid-store", where=fn.loc(valid),
                           message=f"[{desc}] when an element does not verify the walk does `{kind}` and stores {[norm(s[1])[:60] for s in sts]}; it must store "
                                   f"(False, {X}.name) for the target and stop")
             elif v["E"]:
-                ok = kind == "leave" and len(sts) == 1 and norm(sts[0][0].targets[0]) == f"result[{TGT}]" \
+                ok = kind == "leave" and len(sts) == 1 and norm(sts[0][0].targets[0]) == f"{RES}[{TGT}]" \
                     and norm(sts[0][1]) == f"(True, {X}.get_value(), {X}.get_tweak())"
                 run.check("R1", ok, "[V, chain exhausted] -> (True, value, tweak) of the leaf, stop", key="validate_and_get_values|valid-store", where=fn.loc(valid),
                           message=f"[{desc}] when the last element verified the walk does `{kind}` and stores {[norm(s[1])[:60] for s in sts]}; it must store "
@@ -210,16 +224,14 @@ def chain_walk(run, F, PV, C):
                 run.check("R1", nxt is not None and norm(nxt) == f"{CH}.pop()", "the next element is chain.pop()", key="validate_and_get_values|advance|pop",
                           where=fn.loc(valid), message=f"the walk down continues with `{norm(nxt) if nxt is not None else X + ' (unchanged)'}`, not with `{CH}.pop()`")
     run.floor("R1", "decision-table cases of the two loops", n_cases, 5)
-    for lf in Walker(A, fn, C, lambda e: None).walk(va, stops={fh[0]}):
-        run.check("R1", lf.kind == "stop" and not stores(lf), "no verdict is written after the validation loop", key="validate_and_get_values|late-store", where=fn.loc(),
-                  message="result[...] is written (or the method leaves) after the validation loop of a target: the verdict just computed could be overwritten")
+    # (a verdict written after the loop shows as a second store on the `leave` rows above)
     # ---- state
     _purity(run, fn, {"_targets", "_elements", "ROOT_ELEMENT"}, "validate_and_get_values")
-    rdefs = defs_of(A, fn, "result")
+    rdefs = defs_of(A, fn, RES)
     run.check("R1", len(rdefs) == 1 and norm(rdefs[0].value) == "{}" and not any(rdefs[0] is x for x in ast.walk(tloop)),
               "result starts empty for each call", key="validate_and_get_values|result-init", where=fn.loc(),
               message="`result` is not a fresh dict per call")
-    uses = [n for n in ast.walk(fn.node) if isinstance(n, ast.Name) and n.id == "result" and isinstance(n.ctx, ast.Load)]
+    uses = [n for n in ast.walk(fn.node) if isinstance(n, ast.Name) and n.id == RES and isinstance(n.ctx, ast.Load)]
     reads = [u for u in uses if not _is_store_target(fn.node, u) and not _is_returned(fn.node, u)]
     run.check("R1", not reads, "verdicts of other targets are never read back",
               key="validate_and_get_values|result-read", where=fn.loc(),
@@ -404,9 +416,21 @@ def values(run, F, PV, C, E):
     run.require(isinstance(ex, ast.Dict), "EXTRACTORS is no longer a dict literal")
     got = {}
     for k, v in zip(ex.keys, ex.values):
+        body = a = None
         if isinstance(k, ast.Constant) and isinstance(v, ast.Lambda) and len(v.args.args) == 1:
             a = v.args.args[0].arg
             body = norm(v.body)
+        elif isinstance(k, ast.Constant) and isinstance(v, ast.Name):
+            # a named one-parameter function of the module: what it returns
+            try:
+                xf = P.func(f"{E.module.name}.{v.id}")
+            except AnalysisError:
+                xf = None
+            if xf is not None and len(xf.params) == 1:
+                rv = {_strip(x) for x in return_values(A, xf, None, PV)}
+                if len(rv) == 1:
+                    a, body = xf.params[0], next(iter(rv))
+        if body is not None:
             body = re.sub(rf"\b{a}\b", "b", body)
             if body == "b[:]":
                 body = "b"
